@@ -59,7 +59,7 @@ PROPS = {
     "C05": _p(
         "Open known finding K5 (three comparison characters in a row in a tail the parser ignores: listing not a fixed point; proved on the model as adjacent_comparisons_not_faithful, witnesses in corpus/C05). trimEnd_idem: the end-of-line trimming is idempotent (D18). Theorems on the lexer model: every keyword scans to itself, one-character tokens and their texts are mutually inverse, per-token re-lexing for the token classes proved in Thm/C05.lean, idempotence of relisting on canonical token lists as far as proved. K: lexer model vs real lexer exhaustively over all short strings of the significant alphabet and on random/mutated lines. F: the property's own oracle (same number, same parse, fixed point) on the real Line::new over the exhaustive set and random lines.",
         "Partial: the for-all-strings claim is proved for canonical lines only; arbitrary strings are explored exhaustively up to the length bound stated in the evidence.",
-        ["lex-exh", "lex-rand", "lex-c05"], "lexer layers: exhaustive strings over the 34-symbol alphabet after three prefixes, random and mutated lines; distinct_nontrivial = distinct request lines", partial="arbitrary strings: bounded exhaustive exploration"),
+        ["lex-exh", "lex-rand", "lex-c05", "lst-rand", "find-c05"], "find-c05: lines typed at the prompt of the real runtime (length limit with 1..4-byte characters, lines that grow when listed, generated programs, soup), saved as listed and fed to load_str: every saved line is accepted and the loaded program lists identically; lst-rand: load_str model vs real incl. the limit on typed and listed text; lexer layers: exhaustive strings over the 34-symbol alphabet after three prefixes, random and mutated lines; distinct_nontrivial = distinct request lines", partial="arbitrary strings: bounded exhaustive exploration"),
     "C06": _p(
         "Theorems over arbitrary operation sequences of the variable store: absent keys read as the default of their type, successful stores keep the Typed invariant, storing a default frees the slot, array keys are injective and differ from scalar names (no aliasing), bounds, re-dimension rejected, pool bound. K: scripts over a collision-prone name universe with sorted dumps. F: abstract typed store (Spec/VarSpec.lean) vs the real Var.",
         "Trusted: Lean kernel, association-list model of HashMap, correspondence.",
@@ -127,10 +127,10 @@ PROPS = {
         "k_is_violation": lambda req: bool(re.match(r"OP (add|sub|mul|divint|mod|neg|abs|pow) I-?\d+( I-?\d+)?$", req)) or bool(re.match(r"OP (toi16|cint) [SD]", req)),
     },
     "C07": {
-        "level_text": "Lean theorems for all strings (List Char) and all Integer arguments: LEFT$/RIGHT$/MID$ equal take/drop of the documented positions or OVERFLOW, the substring search equals the least-offset search, LEN/ASC/SPC/STRING$/concatenation/comparison as documented, failures are BASIC error codes (no fault). Character-level behaviour of the UTF-8 byte-slicing Rust code is tied to the model by a full grid of 1-4 byte characters x positions {-32768..32767 boundary set} and the Spec functions are evaluated against the implementation (finder).",
+        "level_text": "Lean theorems for all strings (List Char) and all Integer arguments: LEFT$/RIGHT$/MID$ equal take/drop of the documented positions or OVERFLOW, the substring search equals the least-offset search, LEN/ASC/SPC/STRING$/concatenation/comparison as documented, failures are BASIC error codes (no fault). Character-level behaviour of the UTF-8 byte-slicing Rust code is tied to the model by a full grid of 1-4 byte characters x positions {-32768..32767 boundary set} and the Spec functions are evaluated against the implementation (finder). find-c07: the assignment form MID$(v$,n[,m])=x$ against its character-level specification (size never changes, n=0 refused) over 1..4-byte characters; ses: sessions with such statements in lockstep.",
         "level_note": "Partial: theorems are stated for Integer-typed position/length arguments (float arguments go through the proved floor conversion of C08); STR$/VAL/HEX$/OCT$ and the 255-character store limit are covered by correspondence only (store limit is proved under C06). Trusted: Lean kernel, Model/Std.lean reading of char_indices/str::find/str ordering, harness.",
         "technique": "Lean 4 proof over List Char + differential correspondence on a multi-byte grid + list-spec finder",
-        "layers": ["ops-str"],
+        "layers": ["ops-str", "ses", "find-c07"],
         "trusted_base": TB_COMMON + ["Rust str::find / char_indices / Ord for str as documented (first match, char boundaries, byte-lexicographic = code-point order)"],
         "assumptions": [ASSUME_STD, "strings in the model are lists of Unicode scalar values; the Rust code's byte offsets all come from char_indices (checked by the multi-byte grid)"],
         "partial": "float-typed arguments, STR$/VAL/HEX$/OCT$: correspondence only",
